@@ -50,8 +50,6 @@ def SizeRef.is (r : SizeRef) (s : SizeSite) : Bool :=
 
 /-- the reviewed obligations the uniform tactic does not prove -/
 def exemptSizeSites : List SizeRef := [
-  ⟨"lib/query/aggregate_function.go", "Median", "values[idx + 1]", "low", 1, "N quotient: idx = len(values)/2 - 1 in the branch len(values) even, and Median returns NULL for an empty list above, so 0 <= idx and idx+1 < len"⟩,
-  ⟨"lib/query/aggregate_function.go", "Median", "values[idx + 1]", "high", 1, "N quotient: idx = len(values)/2 - 1 in the branch len(values) even, and Median returns NULL for an empty list above, so 0 <= idx and idx+1 < len"⟩,
   ⟨"lib/query/analytic_function.go", "perseCumulativeGroups", "groups[len(groups) - 1]", "low", 2, "I else-branch of `currentRank == nil || ...`: the first iteration takes the then-branch (currentRank starts nil) and appends a group (also pinned in C19Args)"⟩,
   ⟨"lib/query/built_in_command.go", "writeFieldList", "strings.Repeat(\" \", digits - len(idxstr))", "count", 1, "S digits = len(Itoa(l)) and idxstr = Itoa(i+1) with i+1 <= l: the decimal length is monotone"⟩,
   ⟨"lib/query/comparison.go", "matchTextTailOnce", "text[anyRunesMinLen:]", "low", 1, "I anyRunesMinLen counts underscores (parsePattern only increments it from 0); guarded by len(text) < anyRunesMinLen above"⟩,
@@ -105,13 +103,9 @@ def exemptSizeSites : List SizeRef := [
   ⟨"lib/query/view.go", "NewViewFromGroupedRecord/func", "record[j][grpIdx:grpIdx + 1]", "high", 1, "I grpIdx < record.GroupLen() is the task index; all cells of a grouped record hold GroupLen values"⟩,
   ⟨"lib/query/view.go", "View.filter", "view.RecordSet[:newIdx]", "high", 1, "I newIdx counts the records kept out of len(view.RecordSet) (incremented at most once per record)"⟩,
   ⟨"lib/query/view.go", "View.group", "make([]map[string][]int, gm.Number)", "len", 1, "P GoroutineTaskManager.Number >= 1"⟩,
-  ⟨"lib/query/view.go", "View.group", "make([][]string, gm.Number)", "len", 1, "P GoroutineTaskManager.Number >= 1"⟩,
-  ⟨"lib/query/view.go", "View.group/func", "make([]int, 0, int(math.Min(float64(view.RecordLen() / 18), 1000)))", "cap", 1, "N float minimum of a quotient of a length and 1000"⟩,
   ⟨"lib/query/view.go", "View.group/func", "make(Cell, groupKeyCnt[groupKeys[gIdx]])", "len", 1, "I a count read from a map of counters (only ever incremented)"⟩,
   ⟨"lib/query/view.go", "View.group/func", "primaries[pos + k]", "high", 1, "I primaries = make(.., groupKeyCnt[key]); pos and k enumerate exactly the records counted for the key"⟩,
   ⟨"lib/query/view.go", "View.ExtendRecordCapacity/func", "make(Record, view.FieldLen(), fieldCap)", "cap", 1, "I fieldCap = FieldLen + number of new fields, computed in the enclosing function (literal)"⟩,
-  ⟨"lib/query/view.go", "View.Offset", "view.RecordSet[view.offset:]", "low", 1, "I view.offset is a field: the clamp `if view.offset < 0 { view.offset = 0 }` assigns through the field path, which the walker does not turn into a fact (offset_in_bounds over Csvq/Gen/LimitOffset, C07, is the proof of this clamp)"⟩,
-  ⟨"lib/query/view.go", "View.Offset", "view.RecordSet[:len(newSet)]", "high", 1, "I newSet is a sub-slice of view.RecordSet"⟩,
   ⟨"lib/query/view.go", "View.Limit", "view.sortValuesInEachRecord[view.offset + limit - 1]", "low", 1, "I the sort values are index-aligned with the records of the view BEFORE Offset re-sliced the record set: len(sortValues) = offset + RecordLen, and limit < RecordLen here (C19-m22 is the seeded change of this alignment; driven by the LIMIT / OFFSET grid)"⟩,
   ⟨"lib/query/view.go", "View.Limit", "view.sortValuesInEachRecord[view.offset + limit - 1]", "high", 1, "I the sort values are index-aligned with the records of the view BEFORE Offset re-sliced the record set: len(sortValues) = offset + RecordLen, and limit < RecordLen here (C19-m22 is the seeded change of this alignment; driven by the LIMIT / OFFSET grid)"⟩,
   ⟨"lib/query/view.go", "View.Limit", "view.sortValuesInEachRecord[view.offset + limit]", "low", 1, "I the sort values are index-aligned with the records of the view BEFORE Offset re-sliced the record set: len(sortValues) = offset + RecordLen, and limit < RecordLen here (C19-m22 is the seeded change of this alignment; driven by the LIMIT / OFFSET grid)"⟩,
